@@ -74,4 +74,7 @@ fn run(ctx: &mut Ctx) {
         case_fn(s, c, st)
     });
     let _ = Tier::Quick;
+    if ctx.tier == crate::runner::Tier::Thorough {
+        ctx.fuzz_campaign("fuzz_build", 10000);
+    }
 }
